@@ -65,6 +65,7 @@ import ast
 import importlib
 import re
 
+from lib import zbox
 from lib.core import exc_name, idset
 
 ID = "C06"
@@ -447,7 +448,7 @@ class KeywordObs(_Base):
         self.rank = c02.rank_table(cfg.get("vtype", "str"))
         fam = BTrees.family32 if cfg.get("family") == 32 else BTrees.family64
         if cfg.get("disc") == "callable":
-            disc = lambda obj, default: getattr(obj, "x", default)  # noqa: E731
+            disc = zbox.disc_x
         else:
             disc = "x"
         self.idx = KeywordIndex(disc, family=fam)
@@ -613,7 +614,7 @@ class FacetObs(_Base):
         from hypatia.facet import FacetIndex
         fam = BTrees.family32 if cfg.get("family") == 32 else BTrees.family64
         if cfg.get("disc") == "callable":
-            disc = lambda obj, default: getattr(obj, "x", default)  # noqa: E731
+            disc = zbox.disc_x
         else:
             disc = "x"
         facets = [c13.dec(t) for t in cfg.get("facets", [])]
@@ -735,7 +736,13 @@ def cfgdict(case):
 
 def impl_run(hyp, case):
     im = KIND[case["session"]]["impl"](hyp, cfgdict(case))
-    return [im.execute(c) for c in case["cmds"]]
+    if not zbox.is_zodb(case):
+        return [im.execute(c) for c in case["cmds"]]
+    box = zbox.ZBox({"idx": im.idx})
+    try:
+        return [box.txn(c, im, ("current",)) if c[0] == "txn" else im.execute(c) for c in case["cmds"]]
+    finally:
+        box.close()
 
 
 def nontrivial(case, outs):
@@ -823,9 +830,10 @@ _gen_other_kinds = gen
 
 
 def gen(rng, tier, idx):                                        # noqa: F811
+    # 15% of the cases keep the index in a ZODB connection with commits / evictions / aborts in between
     if rng.random() < 1.0 / (len(KINDS) + 1):
-        return gen_text_kind(rng, tier)
-    return _gen_other_kinds(rng, tier, idx)
+        return zbox.sprinkle(rng, gen_text_kind(rng, tier), 0.15)
+    return zbox.sprinkle(rng, _gen_other_kinds(rng, tier, idx), 0.15)
 
 
 _model_cmd_other_kinds = model_cmd
@@ -843,7 +851,13 @@ _impl_run_other_kinds = impl_run
 def impl_run(hyp, case):                                        # noqa: F811
     if case["session"] == "text":
         im = c03.Impl(c03.cfgdict(case))
-        return [im.run((["index"] + list(c[1:])) if c[0] == "tindex" else c) for c in case["cmds"]]
+        box = zbox.ZBox({"idx": im.idx}) if zbox.is_zodb(case) else None
+        try:
+            return [box.txn(c, im, ("current",)) if c[0] == "txn" else
+                    im.run((["index"] + list(c[1:])) if c[0] == "tindex" else c) for c in case["cmds"]]
+        finally:
+            if box is not None:
+                box.close()
     return _impl_run_other_kinds(hyp, case)
 
 
